@@ -74,4 +74,11 @@ def collect(h):
         raise h.Missing(f"{rel}: eventType.regenerateIDs no longer calls argObject.regenerateIDs")
     items.append(("c04_sync_prepass", "bool", "true" if 0 <= i_sync < i_arg else "false", rel))
     items.append(("c04_plans_shared", "bool", "true" if shared else "false", rel))
+    # appRecordsType.validEvent: a singleton create is refused whenever a record sits at the singleton's ID
+    rel = "pkg/istructsmem/impl.go"
+    body = h.func_body(rel, r"^func \(recs \*appRecordsType\) validEvent\(", "appRecordsType.validEvent")
+    if "ErrSingletonViolation(rec)" not in body:
+        raise h.Missing(f"{rel}: validEvent no longer raises ErrSingletonViolation")
+    plain = re.search(r"exists, err := load\(id, nil\)(.|\n)*?if exists \{\s*return ErrSingletonViolation\(rec\)", body)
+    items.append(("c04_singleton_slot_guard", "bool", "true" if plain else "false", rel))
     return items
